@@ -189,4 +189,17 @@ theorem l2_invocation_from_start (ops : List COp2) (h : Nat) (id : TID) (e : CEv
 example : startCount2 1 k1History ≤ 1 := by decide
 example : startCount2 1 [.startBlocked id1 req1 1, .deliverDecoded id1 resp1, .release false] ≤ 1 := by decide
 
+/-- F15 (known finding): `Start(h1)` is inside its first `Connection.Write`; the response arrives and completes it
+    (h1 runs); a second `Start(h2)` registers the SAME transaction id and returns nil; the first `Write` then fails and
+    `Start(h1)`'s error path deletes by id - removing h2's registration - and stops h2's agent transaction. h2's own
+    response then goes to nobody, no timeout is ever reported for it and `Close` does not complete it: a handler whose
+    `Start` returned nil is never invoked. (`l2_handler_at_most_once` is an inequality for exactly this reason.) -/
+theorem f15_same_id_restart_loses_handler :
+    let ops : List COp2 := [.startBlocked id1 req1 1, .deliverDecoded id1 resp1, .l1 (.start id1 req1 (some 2)),
+      .release false, .deliverDecoded id1 resp1, .l1 (.tick 900000000), .l1 .close]
+    ((({} : Client2).step (.startBlocked id1 req1 1)).1.step (.deliverDecoded id1 resp1)).1.step
+        (.l1 (.start id1 req1 (some 2))) |>.2.1 = none ∧          -- Start(h2) returned nil
+    calls 1 (({} : Client2).run ops).2 = 1 ∧ calls 2 (({} : Client2).run ops).2 = 0 := by
+  decide
+
 end Stun.C10L2
